@@ -2,6 +2,7 @@ package hx
 
 import (
 	"fmt"
+	"sync/atomic"
 
 	ipfslog "berty.tech/go-ipfs-log"
 	"berty.tech/go-ipfs-log/entry"
@@ -62,8 +63,17 @@ func (w *World) loaderOpts() *ipfslog.LogOptions {
 	return w.sharedOpts
 }
 
+// manifestLoads counts manifest loads process-wide (worlds are copied by value by some monitors).
+var manifestLoads int64
+
 func (w *World) LoadManifest(c cid.Cid, ident int, lo *LoadOpts) (*ipfslog.IPFSLog, error) {
-	return ipfslog.NewFromMultihash(w.Ctx, w.Store.API(), w.Idents[ident], c, w.loaderOpts(),
+	opts := w.loaderOpts()
+	// the manifest names the log: every other load leaves the id out of the options (or, with reused
+	// options, whatever an earlier load left there stays)
+	if atomic.AddInt64(&manifestLoads, 1)%2 == 0 && !w.ReuseOptions {
+		opts.ID = ""
+	}
+	return ipfslog.NewFromMultihash(w.Ctx, w.Store.API(), w.Idents[ident], c, opts,
 		&ipfslog.FetchOptions{Length: lo.Length, Concurrency: lo.Concurrency, Exclude: lo.Exclude, ShouldExclude: lo.ShouldExcl, Timeout: dur(lo.TimeoutMs)})
 }
 
